@@ -73,6 +73,27 @@ func callsIn(fn *ssa.Function, objs ...*types.Func) []ssa.Instruction {
 	return out
 }
 
+// successUnreachable decides: with every instance of the guards failing (and the extra assumptions), no return of
+// fn itself is reachable whose last result - the error - may be nil. The result is evaluated in the state, so
+// `return parse(x)` is judged by what parse can return under the same assumptions. It reports the number of guard
+// sites, of reachable returns examined, and a witness path ("" if the rule holds).
+func successUnreachable(c *an.Ctx, fn *ssa.Function, guards []*an.Guard, extra map[ssa.Value]an.Abs) (sites, rets int, witness string) {
+	sites = an.RunAllFail(fn, guards, extra, false, func(r *an.Result) {
+		for _, ret := range an.Returns(fn) {
+			if len(ret.Results) == 0 {
+				continue
+			}
+			for _, st := range r.StatesAt(ret) {
+				rets++
+				if a := r.Eval(ret.Results[len(ret.Results)-1], st); a.K != an.KNonNil {
+					witness = c.P.Rel(ret.Pos()) + " via " + r.Witness(c.P, st)
+				}
+			}
+		}
+	})
+	return
+}
+
 // loopsAround lists the loops (back edge from, header) - in fn or in a helper a query on fn enters - whose body
 // contains the instruction, directly or through the calls made in the body.
 func loopsAround(fn *ssa.Function, in ssa.Instruction) [][2]*ssa.BasicBlock {
